@@ -8,22 +8,14 @@ import Cherab.Props.C07
 Everything here is `decide` over the complete generated tables; the general theorems about the interpretation of an
 arbitrary accessor descriptor are in `Props/C07.lean`.
 
-`knownPolicyDeviants` / `knownGuardDeviants` are the one-line switches: each name listed there is a defect of the
-unchanged tree that the check re-finds on the running code (notes/C07.md).  When a fix lands the regenerated table
-makes the corresponding name superfluous (every theorem here stays true, nothing has to be edited for the check to
-keep passing); with both lists emptied `policy_uniform_partial` *is* `policy_uniform` and `guards_complete_partial`
-*is* `guards_complete`.  The witnesses that the listed deviations are real on the unchanged tree are kept apart in
-`Props/C07AsIs.lean` (they are *supposed* to stop compiling when a fix lands).
+Full strength since the five fixes of round C07 are in /repo (1187109, 2bcf964, 1ec8bb9, 57a68d0, de3325a): no excuse
+lists.  Reverting any of them regenerates a table on which `policy_uniform`, `guards_complete`,
+`class_table_as_modelled` or `axis_logs_libm` no longer builds, and the search re-finds the old failing inputs
+(`corpus/C07`).  The witnesses that the defects were real on the old tree are archived in
+`notes/archive/C07AsIs.lean.txt`.
 -/
 namespace Cherab.Props.C07Table
 open Cherab.Rates Cherab.Rates.Policy Cherab.Gen.OpenAdasPolicy
-
-/-- accessors that are allowed to deviate from the uniform policy today (DESIGN §6 #6, #7 and the thermal-CX-PEC
-wavelength) -/
-def knownPolicyDeviants : List String := ["beam_cx_pec", "recombination_pec", "thermal_cx_pec"]
-
-/-- rate classes whose `evaluate` does not guard every density / temperature / energy argument today -/
-def knownGuardDeviants : List String := ["BeamCXPEC"]
 
 /-- the table lists exactly the thirteen rate accessors of `AtomicData` that `OpenADAS` implements -/
 theorem policy_complete : accessors.map (·.name) =
@@ -34,11 +26,9 @@ theorem policy_complete : accessors.map (·.name) =
 /-- every accessor body was understood by the translator -/
 theorem policy_recognised : ∀ a ∈ accessors, a.recognised = true ∧ a.handlerStd = true := by decide
 
-/-- PARTIAL (`policy_uniform` with the three known deviants excused): every other accessor catches exactly
-`RuntimeError`, builds its Null object with an accepted argument list, reads the element's rates and converts with the
-requested species' wavelength, and forwards `permit_extrapolation`. -/
-theorem policy_uniform_partial :
-    ∀ a ∈ accessors, Uniform nullSigs a = true ∨ a.name ∈ knownPolicyDeviants := by decide
+/-- every accessor catches exactly `RuntimeError`, builds its Null object with an accepted argument list, reads the
+element's rates, converts with the requested species' wavelength, and forwards `permit_extrapolation` -/
+theorem policy_uniform : ∀ a ∈ accessors, Uniform nullSigs a = true := by decide
 
 /-- `OpenADAS.wavelength` has the documented shape -/
 theorem wavelength_uniform : WlUniform wavelengthPolicy = true := by decide
@@ -51,9 +41,7 @@ theorem null_classes_zero :
 shape-determining `evaluate` parameters, guarded parameters, photon conversion, extrapolation kinds -/
 theorem class_table_as_modelled :
     ∀ m ∈ modelled, ∃ c ∈ rateClasses, c.name = m.name ∧ c.evalParams = m.evalParams
-      ∧ (c.guarded = m.guarded
-          -- the prepared switch: BeamCXPEC with the complete guard is modelled by `beamCXGuarded true`
-          ∨ (m.shape = Shape.beamCX ∧ c.guarded = ["energy", "temperature", "density"]))
+      ∧ c.guarded = m.guarded
       ∧ c.extrap.map (·.2) = m.extrap.map (·.2) ∧ (c.photon != []) = m.photon := by decide
 
 /-- every rate class returned by an accessor is modelled -/
@@ -77,11 +65,15 @@ def argsLineUp (a : Accessor) (c : RateClassSrc) : Bool :=
 theorem rate_ctor_args : ∀ a ∈ accessors, ∃ c ∈ rateClasses, c.name = a.rateClass ∧ argsLineUp a c = true := by
   decide
 
-/-- PARTIAL (`guards_complete` with BeamCXPEC excused): every density / temperature / energy parameter of `evaluate`
-is in the leading `<= 0 → return 0` guard -/
-theorem guards_complete_partial :
-    ∀ c ∈ rateClasses, c.isNull = true ∨ (c.evalParams.all fun p => !isDTE p || c.guarded.contains p) = true
-      ∨ c.name ∈ knownGuardDeviants := by decide
+/-- every density / temperature / energy parameter of every `evaluate` is in the leading `<= 0 → return 0` guard -/
+theorem guards_complete :
+    ∀ c ∈ rateClasses, c.isNull = true ∨ (c.evalParams.all fun p => !isDTE p || c.guarded.contains p) = true := by
+  decide
+
+/-- the log-space knots are computed with the same libm `log10` that `evaluate` applies to its arguments (no
+constructor hands `np.log10(axis)` to an interpolator): the hypothesis `LogAgree` of `grid2_at_knot_raw` holds of the
+code, the end knots are reachable -/
+theorem axis_logs_libm : ∀ c ∈ rateClasses, c.isNull = true ∨ c.axisLogNumpy = false := by decide
 
 /-- the vocabulary of `evaluate` parameter names is the one `isDTE` knows (a renamed parameter is noticed) -/
 theorem eval_params_known : ∀ c ∈ rateClasses, ∀ p ∈ c.evalParams, p ∈ dteNames ++ otherNames := by decide
@@ -93,9 +85,9 @@ theorem isotope_policy_table :
         | Src.raw p => !a.species.contains p
         | _ => true) = true ∧ (a.species.all fun p => a.getArgs.contains (Src.elem p)) = true := by decide
 
-/-- **wavelength of the requested species**, every photon accessor except the known deviant -/
+/-- **wavelength of the requested species**, every photon accessor -/
 theorem wavelength_policy_table :
-    ∀ a ∈ accessors, a.name = "thermal_cx_pec" ∨ (match a.wl with
+    ∀ a ∈ accessors, (match a.wl with
       | none => true
       | some c => match c.species with
         | Src.raw p => a.species.contains p
@@ -117,15 +109,33 @@ theorem wavelength_charge_table :
       [("beam_cx_pec", "receiver_charge - 1"), ("beam_emission_pec", "0"), ("impact_excitation_pec", "charge"),
        ("recombination_pec", "charge"), ("thermal_cx_pec", "receiver_charge - 1")] := by decide
 
-/-- **missing-data clause on today's table**: every accessor outside the excuse list raises `RuntimeError` on missing
-data, or returns its Null rate when nulls were requested — `policy_uniform_partial` fed into `missing_policy` -/
-theorem missing_policy_table (a : Accessor) (ha : a ∈ accessors) (hn : a.name ∉ knownPolicyDeviants) (c : Call)
+/-- **missing-data clause on today's table**: every accessor raises `RuntimeError` on missing data, or returns its
+Null rate when nulls were requested — `policy_uniform` fed into `missing_policy` -/
+theorem missing_policy_table (a : Accessor) (ha : a ∈ accessors) (c : Call)
     (hmiss : c.stored.contains (keyOf a c) = false) :
     run nullSigs wavelengthPolicy a c =
-      if c.nullRequested then Result.null a.nullInList else Result.raises "RuntimeError" := by
-  rcases policy_uniform_partial a ha with hu | hd
-  · exact Cherab.Props.C07.missing_policy nullSigs wavelengthPolicy a c hu hmiss
-  · exact absurd hd hn
+      if c.nullRequested then Result.null a.nullInList else Result.raises "RuntimeError" :=
+  Cherab.Props.C07.missing_policy nullSigs wavelengthPolicy a c (policy_uniform a ha) hmiss
+
+/-- **wavelength clause on today's table**: every photon accessor converts with the requested species' own wavelength
+when stored, the element's only for an isotope with the fall-back flag, and otherwise raises -/
+theorem wavelength_requested_table (a : Accessor) (ha : a ∈ accessors) (wc : WlCall) (hwl : a.wl = some wc) (c : Call)
+    (p : String) (sp : Sp) (hsp : wc.species = Src.raw p) (hf : findSp c p = some sp)
+    (hpres : c.stored.contains (keyOf a c) = true) :
+    run nullSigs wavelengthPolicy a c =
+      if c.wlStored.contains sp.sym then Result.rate (keyOf a c) (some sp.sym) a.rateInList
+      else if sp.isIsotope && c.wlFallback && c.wlStored.contains sp.elemSym then
+        Result.rate (keyOf a c) (some sp.elemSym) a.rateInList
+      else Result.raises "RuntimeError" :=
+  Cherab.Props.C07.uniform_wavelength_requested nullSigs wavelengthPolicy a c wc p sp (policy_uniform a ha)
+    wavelength_uniform hwl hsp hf hpres
+
+/-- formerly deviant: `thermal_cx_pec` with an isotope receiver now converts with the isotope's own wavelength -/
+example :
+    run nullSigs wavelengthPolicy acc_thermal_cx_pec
+      ⟨[⟨"donor_element", "H", "H", false⟩, ⟨"receiver_element", "C13", "C", true⟩], [["H", "C"]], ["C13", "C"], false,
+        false⟩ = Result.rate ["H", "C"] (some "C13") false := by
+  decide
 
 /-- non-vacuity: a concrete call of a uniform accessor with an isotope, data stored for the element, both
 wavelengths stored: the isotope's wavelength converts the element's rates -/
